@@ -16,7 +16,8 @@ RULE = ("cases = (env, adapter in {gym, dm_env, multi-to-single with an aggregat
         "resets incl. re-seeding, actions chosen mask-relative incl. illegal/raw); non-trivial = sequences containing a "
         "LAST step and a later reset; distinct by (env, adapter, seed, ops digest)")
 ASSUMPTIONS = [
-    "documented key schedule: key = PRNGKey(seed); every reset does k, key = split(key) and resets the env with k",
+    "documented key schedule: key = PRNGKey(seed); every reset splits the key once, one half resets the env, the other is "
+    "kept (either assignment of the halves is accepted, but it must be used consistently)",
     "multi-agent reward shapes (Connector, LevelBasedForaging) go through MultiToSingleWrapper before the gym adapter",
     "after a LAST step the generated sequence always resets (stepping a finished episode is outside the adapters' contract)",
     "dm_env adapters built for a re-seed reuse the first adapter's compiled jax.jit(env.reset/step) callables",
@@ -66,6 +67,7 @@ class Shadow:
         import jax
 
         self.b = b
+        self.conv = getattr(b, "_key_conv_try", "first")
         self.split = jax.jit(lambda k: jax.random.split(k))
         self.seed(seed)
         self.state = self.ts = None
@@ -77,7 +79,8 @@ class Shadow:
 
     def reset(self):
         ks = self.split(self.key)
-        k, self.key = ks[0], ks[1]
+        # "one split per reset": which half resets the env and which half is kept is not fixed by the property
+        k, self.key = (ks[0], ks[1]) if self.conv == "first" else (ks[1], ks[0])
         self.state, self.ts = self.b.reset(k)
         return self.ts
 
@@ -328,12 +331,37 @@ def work_items(tier, flt):
     return items
 
 
-def _run(ctx, b, adapter, seed, ops, fail, aggs, concrete=None):
+def _run_once(ctx, b, adapter, seed, ops, fail, aggs, concrete=None):
     if adapter == "gym":
         return run_gym(ctx, b, seed, ops, fail, aggs=aggs if b.name in MULTI_REWARD else None, concrete=concrete)
     if adapter == "dm":
         return run_dm(ctx, b, seed, ops, fail, concrete=concrete)
     return run_m2s(ctx, b, seed, ops, fail, aggs, concrete=concrete)
+
+
+def _run(ctx, b, adapter, seed, ops, fail, aggs, concrete=None):
+    """The statement fixes the key schedule as 'seed, then one split per reset' but not which half of the split
+    resets the environment: both conventions are accepted; the first sequence that only fits the second convention
+    pins it for this configuration, failures are reported only if neither fits."""
+    if adapter == "m2s":
+        return _run_once(ctx, b, adapter, seed, ops, fail, aggs, concrete)
+    buf = []
+    b._key_conv_try = getattr(b, "_key_conv", "first")
+    out = _run_once(ctx, b, adapter, seed, ops, lambda *a: buf.append(a), aggs, concrete)
+    if buf and not hasattr(b, "_key_conv"):
+        buf2 = []
+        b._key_conv_try = "second"
+        out2 = _run_once(ctx, b, adapter, seed, ops, lambda *a: buf2.append(a), aggs, concrete)
+        if not buf2:
+            b._key_conv = "second"
+            ctx.count("key_convention_second_half")
+            return out2
+        b._key_conv_try = "first"
+    if buf:
+        b._key_conv = getattr(b, "_key_conv", "first")
+    for a in buf:
+        fail(*a)
+    return out
 
 
 def run_item(item, seed, tier):
